@@ -448,7 +448,14 @@ def _run(pid, tier, seed):
     def worker(chunk):
         st = Stats()
         for it in chunk:
-            work_item(pid, it, st)
+            try:
+                work_item(pid, it, st)
+            except Exception as ex:  # noqa: BLE001
+                from .core import raised_in_library
+                if not raised_in_library(ex):
+                    raise
+                st.violation(term_case(it[0], it[1], it[2], "exception",
+                                       f"the library raised {type(ex).__name__}: {str(ex)[:160]} during simplification", None))
             st.inc("start_terms")
             st.inc("start_" + it[0].split(":")[0])
             if st.c["start_terms"] % 173 == 1:
